@@ -55,16 +55,19 @@ macro_rules! spy_common {
         pub struct $name<T> {
             pub data: Vec<T>,
             pub log: RefCell<SpyLog>,
+            /// logical step budget: number of full passes (`titer()` calls) allowed; exceeding it
+            /// raises the marked panic `SPY-BUDGET` (bounded-progress monitor)
+            pub pass_budget: std::cell::Cell<u64>,
         }
 
         impl<T> $name<T> {
             pub fn new(data: Vec<T>) -> Self {
-                Self { data, log: RefCell::new(SpyLog::default()) }
+                Self { data, log: RefCell::new(SpyLog::default()), pass_budget: std::cell::Cell::new(u64::MAX) }
             }
             pub fn with_trace(data: Vec<T>) -> Self {
                 let mut l = SpyLog::default();
                 l.trace = Some(Vec::new());
-                Self { data, log: RefCell::new(l) }
+                Self { data, log: RefCell::new(l), pass_budget: std::cell::Cell::new(u64::MAX) }
             }
             pub fn take_log(&self) -> SpyLog {
                 std::mem::take(&mut *self.log.borrow_mut())
@@ -85,7 +88,14 @@ macro_rules! spy_common {
         impl<T: Clone> TIter<T> for $name<T> {
             #[inline]
             fn titer(&self) -> impl TIterator<Item = T> + '_ {
-                self.log.borrow_mut().titers += 1;
+                let n = {
+                    let mut l = self.log.borrow_mut();
+                    l.titers += 1;
+                    l.titers
+                };
+                if n > self.pass_budget.get() {
+                    panic!("SPY-BUDGET pass {n} exceeds the budget of {}", self.pass_budget.get());
+                }
                 self.data.iter().cloned()
             }
         }
